@@ -535,7 +535,7 @@ var injectors = []struct {
 		}
 	}},
 	{"invalid-pattern", func(r *rng, g *rgrammar, v int) {
-		insertDecl(r, g, rdecl{Kind: "token", Name: "BADPAT", ValKind: "REGEX", Value: pick(r, []string{"a{3,2}", "[b-a]", "a)", "(", "x[", "a{2", "+a", "a||b", `\q`, ":]", "end}", "a]b}c", "]", "}", "x]", "{", "a|", "?"})}, v)
+		insertDecl(r, g, rdecl{Kind: "token", Name: "BADPAT", ValKind: "REGEX", Value: pick(r, []string{"a{3,2}", "[b-a]", "a)", "(", "x[", "a{2", "+a", "a||b", `\q`, ":]", "end}", "a]b}c", "]", "}", "x]", "{", "a|", "?", "[9-0", "[z-a]+*", "a{4,2}(", "(x{3,1}", "[b-a", "x{3,1})", "[^9-0"})}, v)
 		if v%2 == 0 {
 			appendToRule(firstRule(g, r), tokE("BADPAT"))
 		}
